@@ -1,2 +1,207 @@
-import json,sys
-print(json.dumps({"groups": []}))
+"""Bounded stand-in for C06: the real helpers driven exhaustively by a counting rng; salt generators;
+pwd entropy arithmetic (floats, outside the proved fragment)."""
+import math
+from collections import Counter
+
+from common import Group, main, outcome
+
+
+class CountingRng:
+    """returns a chosen value for the single draw and records the calls"""
+
+    def __init__(self, value):
+        self.value = value
+        self.calls = []
+
+    def getrandbits(self, k):
+        self.calls.append(("getrandbits", k))
+        assert 0 <= self.value < (1 << k) or k == 0
+        return self.value
+
+    def randrange(self, a, b):
+        self.calls.append(("randrange", a, b))
+        assert a <= self.value < b
+        return self.value
+
+
+def digits(v, L, n):
+    out = []
+    for _ in range(n):
+        out.append(v % L)
+        v //= L
+    return out
+
+
+def build(tier, rng):
+    from passlib import utils
+    from passlib.utils import getrandbytes, getrandstr
+
+    groups = []
+    g = Group("getrandbytes-exhaustive", "getrandbytes", "count 0..2, every value of the draw (2^(8*count)); count 3..64: 64 random draws each")
+    for count in range(0, 3):
+        seen = Counter()
+        for v in range(1 << (8 * count)):
+            r = CountingRng(v)
+            out = getrandbytes(r, count)
+            g.case((count, v), nontrivial=count > 0)
+            g.check(out == bytes(digits(v, 256, count)), f"getrandbytes:{count}", "output is not the base-256 digits of the draw", {"count": count, "draw": v, "got": out.hex()})
+            g.check(len(r.calls) == (1 if count else 0), "getrandbytes:calls", "number of rng draws", {"count": count, "calls": r.calls})
+            seen[out] += 1
+        g.check(len(seen) == 256**count and set(seen.values()) == {1}, f"getrandbytes:bijection:{count}", "outputs are not each value exactly once", {"count": count, "distinct": len(seen)})
+    for count in range(3, 65):
+        for _ in range(64 if tier == "quick" else 1024):
+            v = rng.getrandbits(8 * count)
+            out = getrandbytes(CountingRng(v), count)
+            g.case((count, v))
+            g.check(out == v.to_bytes(count, "little"), "getrandbytes:large", "output is not the little-endian bytes of the draw", {"count": count, "draw": v})
+    groups.append(g)
+
+    g = Group("getrandstr-exhaustive", "getrandstr[str]", "alphabets of 2..94 symbols (text and bytes) x counts with L^count <= 4096: every draw")
+    alpha = "".join(chr(c) for c in range(33, 127))
+    for L in list(range(2, 17)) + [26, 52, 62, 64, 94]:
+        for cs in (alpha[:L], alpha[:L].encode()):
+            count = 0
+            while L**count <= (4096 if tier == "quick" else 65536) and count <= 6:
+                seen = Counter()
+                for v in range(L**count):
+                    out = getrandstr(CountingRng(v), cs, count)
+                    g.case((L, isinstance(cs, bytes), count, v), nontrivial=count > 0)
+                    want = [cs[d] for d in digits(v, L, count)]
+                    want = "".join(want) if isinstance(cs, str) else bytes(want)
+                    g.check(out == want, f"getrandstr:{L}", "output is not alphabet[digits of the draw]", {"L": L, "count": count, "draw": v, "got": repr(out)})
+                    seen[out] += 1
+                g.check(len(seen) == L**count and set(seen.values()) == {1}, "getrandstr:bijection", "outputs not each exactly once", {"L": L, "count": count})
+                count += 1
+    for bad in [("ab", -1), ("", 3), (b"", 0)]:
+        o = outcome(getrandstr, CountingRng(0), *bad)
+        g.case(("bad", repr(bad)))
+        g.check(o[0] == "exc" and o[1] == "ValueError", "getrandstr:refusal", "negative count / empty alphabet not refused with ValueError", {"args": repr(bad), "outcome": o})
+    o = getrandstr(CountingRng(0), "x", 5)
+    g.check(o == "xxxxx", "getrandstr:single", "one-letter alphabet", {"got": o})
+    groups.append(g)
+
+    # ---- salted hashers: generated salt has the declared size and alphabet -------------------
+    g = Group("salt-generators", "HasSalt._generate_salt", "every registered salted hasher x salt_size in {min, default, max(<=64)}: 8 fresh hashes each; alphabet and size of the parsed salt")
+    from passlib import registry
+    import passlib.utils.handlers as uh
+
+    skipped = []
+    for name in registry.list_crypt_handlers():
+        try:
+            h = registry.get_crypt_handler(name)
+        except Exception as err:  # noqa: BLE001
+            skipped.append(f"{name}: {type(err).__name__}")
+            continue
+        if not (isinstance(h, type) and issubclass(h, uh.HasSalt)) or isinstance(h, uh.PrefixWrapper):
+            continue
+        if getattr(h, "backends", None) and not any(outcome(h.has_backend, b) == ("ok", True) for b in h.backends):
+            skipped.append(f"{name}: no backend")
+            continue
+        sizes = {h.default_salt_size}
+        if "salt_size" in h.setting_kwds:
+            sizes |= {h.min_salt_size, min(h.max_salt_size or 64, 64)}
+        for size in sorted(s for s in sizes if s is not None):
+            try:
+                sub = h.using(salt_size=size) if "salt_size" in h.setting_kwds else h
+                kw = {}
+                if "rounds" in h.setting_kwds and getattr(h, "min_rounds", None) is not None:
+                    sub = sub.using(rounds=max(h.min_rounds, 1) if h.rounds_cost == "linear" else h.min_rounds)
+            except Exception as err:  # noqa: BLE001
+                skipped.append(f"{name} size={size}: {type(err).__name__}: {err}")
+                continue
+            ctxkw = {"user": "u"} if "user" in h.context_kwds else {}
+            if "realm" in h.context_kwds:
+                ctxkw["realm"] = "r"
+            salts = []
+            for _ in range(8 if tier == "quick" else 64):
+                try:
+                    hs = sub.hash("pw", **ctxkw)
+                    try:
+                        parsed = sub.from_string(hs, **ctxkw)
+                    except TypeError:
+                        parsed = sub.from_string(hs)
+                except Exception as err:  # noqa: BLE001
+                    skipped.append(f"{name}: hash failed {type(err).__name__}: {err}")
+                    break
+                salt = parsed.salt
+                salts.append(salt)
+                g.case((name, size, salt if isinstance(salt, (str, bytes)) else repr(salt)))
+                if salt is None:
+                    continue
+                g.check(len(salt) == size, f"salt-size:{name}", "generated salt does not have the configured size", {"hasher": name, "size": size, "salt": repr(salt)})
+                chars = sub.default_salt_chars if isinstance(salt, str) else None
+                if chars:
+                    g.check(all(c in chars for c in salt), f"salt-chars:{name}", "generated salt leaves the declared alphabet", {"hasher": name, "salt": salt})
+            if size and size >= 4 and len(salts) >= 8:
+                g.check(len(set(salts)) > 1, f"salt-constant:{name}", "generated salts are all equal", {"hasher": name, "size": size})
+    groups.append(g)
+
+    # ---- CryptContext refuses a pinned salt ---------------------------------------------------
+    g = Group("context-forbids-salt", "_CryptConfig._norm_scheme_option", "salt option via constructor kwds, update(), INI string, per-category, 'all' scheme: must be refused")
+    from passlib.context import CryptContext
+
+    attempts = {
+        "kwds": lambda: CryptContext(["sha256_crypt"], sha256_crypt__salt="abcd"),
+        "all": lambda: CryptContext(["sha256_crypt"], all__salt="abcd"),
+        "category": lambda: CryptContext(["sha256_crypt"], admin__sha256_crypt__salt="abcd"),
+        "update": lambda: CryptContext(["sha256_crypt"]).update(sha256_crypt__salt="abcd"),
+        "ini": lambda: CryptContext.from_string("[passlib]\nschemes = sha256_crypt\nsha256_crypt__salt = abcd\n"),
+        "dict": lambda: CryptContext(["md5_crypt"]).copy(**{"md5_crypt__salt": "abcd"}),
+    }
+    for k, fn in attempts.items():
+        o = outcome(fn)
+        g.case(k)
+        g.check(o[0] == "exc", f"ctx-salt:{k}", "CryptContext accepted a configuration that pins a salt", {"via": k, "outcome": repr(o)[:200]})
+    groups.append(g)
+
+    # ---- pwd: generated passwords carry the requested entropy ------------------------------
+    g = Group("pwd-entropy", "pwd.SequenceGenerator.length", "charsets of 2..94 symbols + wordsets x entropy 1..256 (step 1 quick: 1..128) : length*log2(symbols) >= entropy; outputs over the alphabet with that length")
+    from passlib import pwd
+
+    ents = range(1, 129) if tier == "quick" else range(1, 257)
+    for L in [2, 3, 5, 10, 16, 26, 36, 52, 62, 64, 94]:
+        cs = alpha[:L]
+        for ent in ents:
+            try:
+                gen = pwd.WordGenerator(chars=cs, entropy=ent)
+            except Exception as err:  # noqa: BLE001
+                g.fail("pwd:ctor", f"WordGenerator refused {type(err).__name__}", {"L": L, "entropy": ent})
+                continue
+            g.case(("word", L, ent))
+            g.check(gen.length * math.log2(L) >= ent - 1e-9, "pwd:word-entropy", "generated word carries less than the requested entropy", {"symbols": L, "entropy": ent, "length": gen.length})
+            if ent % 16 == 0:
+                w = gen()
+                g.check(len(w) == gen.length and all(c in cs for c in w), "pwd:word-shape", "generated word has wrong length/alphabet", {"symbols": L, "word": w})
+    for ws in ("eff_long", "eff_short", "eff_prefixed", "bip39"):
+        for ent in ents:
+            gen = pwd.PhraseGenerator(wordset=ws, entropy=ent)
+            n = len(gen.words)
+            g.case(("phrase", ws, ent))
+            g.check(gen.length * math.log2(n) >= ent - 1e-9, "pwd:phrase-entropy", "generated phrase carries less than the requested entropy", {"wordset": ws, "entropy": ent, "length": gen.length})
+    for length in (1, 5, 9, 30):
+        w = pwd.genword(length=length, charset="hex")
+        g.case(("genword", length))
+        g.check(len(w) == length and all(c in "0123456789abcdef" for c in w), "pwd:genword-length", "explicit length not honoured", {"length": length, "word": w})
+    groups.append(g)
+
+    # ---- TOTP.new key sizes ---------------------------------------------------------------
+    g = Group("totp-new-key", "TOTP.__init__(new=True)", "alg in sha1/sha256/sha512 x size 10..digest_size: key length; size > digest_size refused")
+    from passlib.totp import TOTP
+    import hashlib
+
+    for alg in ("sha1", "sha256", "sha512"):
+        ds = hashlib.new(alg).digest_size
+        for size in range(10, ds + 1):
+            t = TOTP(new=True, alg=alg, size=size)
+            g.case((alg, size))
+            g.check(len(t.key) == size, "totp:new-size", "new key does not have the requested size", {"alg": alg, "size": size, "len": len(t.key)})
+        o = outcome(TOTP, new=True, alg=alg, size=ds + 1)
+        g.check(o[0] == "exc" and o[1] == "ValueError", "totp:new-oversize", "key larger than the digest not refused", {"alg": alg, "size": ds + 1, "outcome": repr(o)})
+    k1, k2 = TOTP(new=True).key, TOTP(new=True).key
+    g.check(k1 != k2, "totp:new-distinct", "two new keys equal", {})
+    groups.append(g)
+    return groups, skipped, {}
+
+
+if __name__ == "__main__":
+    main(build)
